@@ -1124,6 +1124,13 @@ fn check_sink_faults(plan: &J, h: &[Ev]) -> Option<Violation> {
             _ => {}
         }
     }
+    // nothing but the appended entries reaches the streams of a flush-immediately sink (the in-band error report is the
+    // background queue's alone)
+    if js(plan, "kind", "").contains("immediate") {
+        if let Some(e) = h.iter().find(|e| matches!(e.k, K::NextBegin { report: true, .. })) {
+            return Some(Violation::new("unexpected_entry", format!("the flush-immediately sink handed its stream an entry that nobody appended (an error report, event #{})", e.seq)));
+        }
+    }
     // a flush-immediately sink: whatever a stream was handed during an append is flushed before the append returns,
     // also when the other leg of the tee (or this one) answered with an error - output must not sit in a buffer
     // until some later entry happens to succeed
